@@ -230,6 +230,91 @@ def random_trace(rec, rng, D, steps, gapcap, caller=None):
         rel = ts + delay
 
 
+def paced_run(client, pattern, cfg, rps, n):
+    """n get() calls through rate-limited session(s), each inside its own `with` block (pattern reenter) or alternating between two
+    sessions that share one RPSPolicer (pattern shared).  Returns the Rate event (microseconds, measured at the agent), or None when
+    fewer than n requests arrived (nothing to judge)."""
+    import asyncio, socket, threading, time
+    from vlib import agent as ag
+    from gufo.snmp import SnmpVersion
+    from gufo.snmp.policer import RPSPolicer
+    sock = socket.socket(socket.AF_INET, socket.SOCK_DGRAM)
+    sock.bind(("127.0.0.1", 0))
+    sock.settimeout(0.05)
+    stop = {"v": False}
+    arrivals = []
+
+    def agent_loop():
+        a = ag.Agent()
+        while not stop["v"]:
+            try:
+                data, peer = sock.recvfrom(65535)
+            except OSError:
+                continue
+            t = time.monotonic()
+            try:
+                req = ag.Request(cfg, data)
+                if req.names and not req.broken:
+                    arrivals.append(t)
+                    sock.sendto(a.reply(cfg, req, [(bytes(req.names[0]), ("int", 1))]), peer)
+            except Exception:  # noqa
+                pass
+    th = threading.Thread(target=agent_loop, daemon=True)
+    th.start()
+    kw = dict(port=sock.getsockname()[1], community=cfg.community, version=SnmpVersion.v2c, timeout=1.0)
+    oid = "1.3.6.1.2.1.1.3.0"
+    if client == "sync":
+        from gufo.snmp.sync_client import SnmpSession
+        if pattern == "reenter":
+            s = SnmpSession("127.0.0.1", limit_rps=rps, **kw)
+            for _ in range(n):
+                try:
+                    with s:
+                        s.get(oid)
+                except Exception:  # noqa
+                    pass
+        else:
+            pol = RPSPolicer(rps)
+            ss = [SnmpSession("127.0.0.1", policer=pol, **kw), SnmpSession("127.0.0.1", policer=pol, **kw)]
+            for k in range(n):
+                try:
+                    with ss[k % 2] as s:
+                        s.get(oid)
+                except Exception:  # noqa
+                    pass
+    else:
+        from gufo.snmp.async_client import SnmpSession
+
+        async def go():
+            if pattern == "reenter":
+                s = SnmpSession("127.0.0.1", limit_rps=rps, **kw)
+                for _ in range(n):
+                    try:
+                        async with s:
+                            await s.get(oid)
+                    except Exception:  # noqa
+                        pass
+            else:
+                pol = RPSPolicer(rps)
+                ss = [SnmpSession("127.0.0.1", policer=pol, **kw), SnmpSession("127.0.0.1", policer=pol, **kw)]
+                for k in range(n):
+                    try:
+                        async with ss[k % 2] as s:
+                            await s.get(oid)
+                    except Exception:  # noqa
+                        pass
+        asyncio.run(go())
+    time.sleep(0.05)
+    stop["v"] = True
+    th.join(1.0)
+    sock.close()
+    if len(arrivals) < n:
+        return None
+    span = int((arrivals[n - 1] - arrivals[0]) * 1e6)
+    # one D of measurement allowance: the agent thread time-stamps arrivals, not releases
+    return {"ev": "Rate", "D": int(10 ** 6 // rps), "n": n - 1, "span": span, "maxdelay": 0}
+
+
 def session_binding(chk, thorough):
     """A recording policer is given to real sync / async sessions; Grant / Wire events are judged by TracePolicer.tla."""
     import asyncio, threading
@@ -442,6 +527,34 @@ def session_binding(chk, thorough):
                         api2.close()
                     asyncio.run(go3())
                 nsess += 1
+    # the limiter's memory survives everything a caller may do with the session between requests: leaving and re-entering the
+    # context for every request, sharing one policer object between sessions.  Real time, measured at the agent: the n arrivals are
+    # one window of the property (TracePolicer Rate event); reported after three failing runs.
+    for client in ("sync", "async"):
+        for pattern in ("reenter", "shared"):
+            ok = False
+            last = None
+            for attempt in range(3):
+                last = paced_run(client, pattern, std["v2c"], rps=10, n=6)
+                if last is None:
+                    ok = True
+                    break
+                recp = trace.Recorder("policer-paced")
+                recp.emit({"ev": "New", "D": 100000})
+                recp.emit(last)
+                vp = trace.validate("TracePolicer.tla", "TracePolicer.cfg", recp.close(), timeout=300)
+                if attempt == 0:
+                    chk.add_tlc(vp["res"], "TracePolicer(paced %s %s)" % (client, pattern))
+                    chk.case(("paced", client, pattern), nontrivial=True)
+                if vp["accepted"]:
+                    ok = True
+                    break
+            if not ok:
+                chk.violation(dict(kind="paced-session", client=client, pattern=pattern),
+                              "%s session with limit_rps=10, %s: %d requests reached the agent within %d ms (they must span more than %d ms)" %
+                              (client, "entered and left around every request" if pattern == "reenter" else "two sessions sharing one policer, entered in turn",
+                               last["n"], last["span"] // 1000, (last["n"] - 2) * 100), dict(kind="paced", client=client, pattern=pattern, event=last))
+            nsess += 1
     path = rec.close()
     nwire = sum(1 for e in rec.events if e["ev"] == "Wire")
     if nwire < 40:
